@@ -93,8 +93,10 @@ ProbeOK(C, E, j, c) ==
 (* otherwise it should be one of the admissible ones (drift if not)         *)
 PfBuiltOK(E) ==
     LET P == E.ctx.pats  v == E.pfi.variant  S == {E.pfi.bytes[x] : x \in 1..Len(E.pfi.bytes)} IN
+    \* (with an empty pattern every offset starts a match, so any prefilter would be
+    \* useless; building one anyway is not forbidden by a property: drift)
     /\ (~PrefilterPossible(P) => v = "none")
-          \/ Reject(0, "ctx", "a prefilter was built although a pattern is empty")
+          \/ Drift(0, "a prefilter was built although a pattern is empty")
     /\ (CASE v = "none" -> TRUE
            [] v = "start" -> AdmStart(S, P, E.ctx.ci)
            [] v = "rare" -> AdmRare(S, P, E.ctx.ci)
@@ -133,8 +135,9 @@ CallOK(C, E, j) ==
            [] k = "overlap_step" -> OverlapStepOK(C, E, c) \/ Reject(j, k, "stepwise overlapping differs")
            [] k = "probe" -> ProbeOK(C, E, j, c)
            [] k = "work" -> WorkOK(C, E, j, c)
+           \* representation, not behaviour: no property fixes it, so a difference is drift
            [] k = "debug_eq" -> CRes(c)[1] = CRes(c)[2]
-                              \/ Reject(j, k, "the top-level searcher's automaton differs from the low-level automaton built with the same options")
+                              \/ Drift(j, "the top-level searcher's Debug dump differs from that of the low-level automaton built with the same options")
            [] k = "same" -> CRes(c)[1] = TRUE
                               \/ Reject(j, k, "the searcher's table changed while it was being searched")
            [] k = "occ" ->
